@@ -225,7 +225,7 @@ theorem build_named (cfg : Cfg) (n : String) (t : TyDef) (tag : String) :
 theorem sliceWrap_fine (cfg : Cfg) (tag : String) (b : Bool) (c : Ty) :
     (sliceWrap cfg tag b c).fine := by
   unfold sliceWrap
-  split <;> (try split) <;> trivial
+  split <;> (try split) <;> (try split) <;> trivial
 
 theorem ptrArm_fine {t : TyDef} {r : Res Ty} (h : r.fine) : (ptrArm t r).fine := by
   unfold ptrArm; split
@@ -373,16 +373,19 @@ theorem sliceWrap_ok {cfg : Cfg} {tag : String} {b : Bool} {c' c : Ty}
     (h : sliceWrap cfg tag b c' = .ok c) :
     (c'.wt = .varint ∧ c = .vslice c') ∨
     ((c'.wt = .w64 ∨ c'.wt = .w32) ∧ b = false ∧ c = .fslice c') ∨
-    (c'.wt = .len ∧ (c = .pslice c' ∨ c = .lslice c')) := by
+    (c'.wt = .len ∧ c'.isProtoSlice = false ∧ (c = .pslice c' ∨ c = .lslice c')) := by
   unfold sliceWrap at h
   split at h
   · rename_i hw; simp at h; exact .inl ⟨hw, h.symm⟩
   · rename_i hw; cases b <;> simp at h; exact .inr (.inl ⟨.inl hw, rfl, h.symm⟩)
   · rename_i hw; cases b <;> simp at h; exact .inr (.inl ⟨.inr hw, rfl, h.symm⟩)
   · rename_i hw
-    split at h <;> simp at h
-    · exact .inr (.inr ⟨hw, .inl h.symm⟩)
-    · exact .inr (.inr ⟨hw, .inr h.symm⟩)
+    cases hp : c'.isProtoSlice
+    · simp only [hp, Bool.false_eq_true, if_false] at h
+      split at h <;> simp at h
+      · exact .inr (.inr ⟨hw, rfl, .inl h.symm⟩)
+      · exact .inr (.inr ⟨hw, rfl, .inr h.symm⟩)
+    · simp [hp] at h
   · simp at h
 
 theorem mapArm_ok {tag : String} {v : TyDef} {rk rv : Res Ty} {c : Ty}
@@ -677,7 +680,7 @@ theorem sliceArm_sound {cfg : Cfg} {tag : String} {t : TyDef} {r : Res Ty} {c : 
     cases hm : c'.isMap
     · rfl
     · exact absurd (i.map hm) hk
-  rcases sliceWrap_ok hw with ⟨hwt, rfl⟩ | ⟨hwt, hb, rfl⟩ | ⟨hwt, rfl | rfl⟩
+  rcases sliceWrap_ok hw with ⟨hwt, rfl⟩ | ⟨hwt, hb, rfl⟩ | ⟨hwt, _, rfl | rfl⟩
   · exact ⟨⟨i.wf, hwt, hnm⟩, rfl, rfl⟩
   · refine ⟨?_, rfl, rfl⟩
     simp only [Ty.wf]
@@ -1234,23 +1237,50 @@ theorem build_slice_wtslice {cfg : Cfg} {t : TyDef} {c : Ty} (tag : String)
   · rfl
   · simp [sliceWrap, hw]
 
+theorem isProtoSlice_wt : ∀ {c : Ty}, c.isProtoSlice = true → c.wt = .len
+  | .pslice _, _ => rfl
+  | .ptr t, h => by
+      have : t.isProtoSlice = true := by simpa [Ty.isProtoSlice] using h
+      simpa [Ty.wt] using isProtoSlice_wt this
+  | .bool, h | .int _, h | .uint _, h | .flat _, h | .f32, h | .f64, h | .str _, h | .bytes, h
+  | .time _, h | .vslice _, h | .fslice _, h | .lslice _, h | .struct _ _, h | .map _ _ _, h => by
+      simp [Ty.isProtoSlice] at h
+
+/-- a slice whose element codec is (a pointer to) the protobuf repeated form: rejected,
+whatever the options (the repaired `isProtoSlice` check). -/
+theorem build_slice_protoslice {cfg : Cfg} {t : TyDef} {c : Ty} (tag : String)
+    (hne : t ≠ .basic (.uint 8)) (hb : build cfg t "" = .ok c) (hp : c.isProtoSlice = true) :
+    build cfg (.slice t) tag = .err := by
+  rw [build_slice, regLoad_slice_none tag hne, hb]
+  simp only [sliceArm]
+  split
+  · rfl
+  · simp [sliceWrap, isProtoSlice_wt hp, hp]
+
 /-- `[][]T` with a length-delimited `T` (strings, structs, times, `[]byte`,
-slices of numbers …), unless the arrays are protobuf-style. -/
+slices of numbers …): rejected under every option combination (with
+ProtoCompatibleArrays this is the repaired case: the inner slice would be in the
+repeated form, which is not self-delimiting). -/
 theorem build_slice_slice_len {cfg : Cfg} {t : TyDef} {c : Ty} (tag : String)
-    (hne : t ≠ .basic (.uint 8)) (hp : cfg.protoArrays = false)
+    (hne : t ≠ .basic (.uint 8))
     (hb : build cfg t "" = .ok c) (hw : c.wt = .len) :
     build cfg (.slice (.slice t)) tag = .err := by
-  have hinner : build cfg (.slice t) "" = .err ∨ build cfg (.slice t) "" = .ok (.lslice c) := by
+  have hinner : build cfg (.slice t) "" = .err ∨ build cfg (.slice t) "" = .ok (.lslice c)
+      ∨ build cfg (.slice t) "" = .ok (.pslice c) := by
     rw [build_slice, regLoad_slice_none "" hne, hb]
     simp only [sliceArm]
     split
     · exact .inl rfl
-    · right; simp only [sliceWrap, hw, hp]; rfl
+    · simp only [sliceWrap, hw]
+      cases c.isProtoSlice
+      · cases cfg.protoArrays <;> simp
+      · simp
   have hne2 : TyDef.slice t ≠ .basic (.uint 8) := by intro h; cases h
-  rcases hinner with h | h
+  rcases hinner with h | h | h
   · rw [build_slice, regLoad_slice_none tag hne2, h]
     exact sliceArm_err _ _ _
   · exact build_slice_wtslice tag hne2 h rfl
+  · exact build_slice_protoslice tag hne2 h rfl
 
 /-! ### 4. skipped fields -/
 
